@@ -70,6 +70,18 @@ def entries(level='quick'):
             Entry('Affine%s' % shape, 'nonlin', lambda: T.PointwiseAffineTransform(shift=0.75, scale=-2.0), shape, extra={'cls': 'Affine'}),
             Entry('Identity%s' % shape, 'nonlin', lambda: T.IdentityTransform(), shape, extra={'cls': 'Identity'}),
         ]
+    # ---- PointwiseAffineTransform with tensor-valued scale / shift (broadcast over the event shape)
+    def aff(scale_shape, shift_shape):
+        def build():
+            g = torch.Generator().manual_seed(sum(scale_shape) * 7 + sum(shift_shape) + 1)
+            sc = torch.randn(scale_shape, generator=g).abs() + 0.3
+            sc = sc * torch.where(torch.rand(scale_shape, generator=g) < 0.3, -1.0, 1.0)
+            sh = torch.randn(shift_shape, generator=g)
+            return T.PointwiseAffineTransform(shift=sh, scale=sc)
+        return build
+    for ev, ssc, ssh in (([3], [3], [3]), ([2, 2, 3], [2, 1, 1], [3]), ([2, 2, 3], [2, 2, 3], [1]), ([2, 2, 3], [3], [2, 1, 1]),
+                         ([4], [1], [4]), ([2, 3], [3], [2, 1])):
+        E.append(Entry('AffineT%s/s%s/b%s' % (ev, ssc, ssh), 'affine_t', aff(ssc, ssh), ev, extra={'sscale': ssc, 'sshift': ssh}))
     # ---- Piecewise*CDF
     cdfs = {'lin': T.PiecewiseLinearCDF, 'quad': T.PiecewiseQuadraticCDF, 'cubic': T.PiecewiseCubicCDF, 'rq': T.PiecewiseRationalQuadraticCDF}
     for fam, cls in cdfs.items():
@@ -109,6 +121,23 @@ def entries(level='quick'):
                                             cls(mask, net_fn(netk, ctx), num_bins=K, tails=tails, tail_bound=B if B else 1.0)),
                                            [len(mask)], ctx=ctx, dom_fwd=None if tails else (0.0, 1.0), dom_inv=None if tails else (0.0, 1.0),
                                            spline=_spl(fam, tails, K, B), extra={'ckind': fam, 'mask': mask}))
+    # coupling with an unconditional transform of the identity features
+    for fam, cls in cps.items():
+        for tails, B in ((None, None), ('linear', 2.5)):
+            for ctx in (None, 2):
+                mask = [1, 0, 0, 1]
+                tag = 'uncond/%s/ctx%s' % ('tails' if tails else 'box', ctx)
+                E.append(Entry('%sCoupling/%s' % (fam, tag), 'coupling',
+                               (lambda cls=cls, mask=mask, ctx=ctx, tails=tails, B=B: cls(mask, net_fn('res', ctx), num_bins=3, tails=tails,
+                                                                                      tail_bound=B if B else 1.0, apply_unconditional_transform=True)),
+                               [4], ctx=ctx, dom_fwd=None if tails else (0.0, 1.0), dom_inv=None if tails else (0.0, 1.0),
+                               spline=_spl(fam, tails, 3, B), extra={'ckind': fam, 'mask': mask, 'uncond': True}))
+            mask = [0, 1, 1]
+            E.append(Entry('%sCoupling/uncond/img/%s' % (fam, 'tails' if tails else 'box'), 'coupling',
+                           (lambda cls=cls, mask=mask, tails=tails, B=B: cls(mask, net_fn('conv', None, 4), num_bins=3, tails=tails, tail_bound=B if B else 1.0,
+                                                                              apply_unconditional_transform=True, img_shape=[2, 2])),
+                           [3, 2, 2], dom_fwd=None if tails else (0.0, 1.0), dom_inv=None if tails else (0.0, 1.0),
+                           spline=_spl(fam, tails, 3, B), extra={'ckind': fam, 'mask': mask, 'img': True, 'uncond': True}))
     # image coupling
     for mask in ([1, 0], [0, 1, 1]):
         for ctx in (None, 2) if full else (None,):
@@ -272,6 +301,10 @@ def model_request(e, t, x, ctx, inverse, rec=None, pass_index=-1):
             ps = [torch.stack([t._scale.to(x.dtype).reshape(()), t._shift.to(x.dtype).reshape(())])]
         return {'op': 'nonlin', 'p': prec, 's': [cls, 'nonlin', ''], 'i': [int(inverse), 0, 0, B],
                 'f': [bits.tensor_bits(x), bits.tensor_bits(ps[0]) if ps else []], 'd': [fb(v) for v in ds]}
+    if e.kind == 'affine_t':
+        ev = list(e.in_shape); ssc = list(t._scale.shape); ssh = list(t._shift.shape)
+        return {'op': 'affine_t', 'p': prec, 's': ['AffineT', 'affine_t', ''], 'i': [int(inverse), 0, 0, B, len(ev), len(ssc), len(ssh)] + ev + ssc + ssh,
+                'f': [bits.tensor_bits(x), bits.tensor_bits(t._scale.to(x.dtype)), bits.tensor_bits(t._shift.to(x.dtype))], 'd': []}
     fam = e.spline.get('fam')
     if e.kind == 'cdf':
         names = S.PARAM_NAMES[fam]
@@ -288,9 +321,16 @@ def model_request(e, t, x, ctx, inverse, rec=None, pass_index=-1):
         hf = int(getattr(net, 'hidden_features', 0) or 0)
         hc = int(getattr(net, 'hidden_channels', 0) or 0)
         mask = torch.tensor(e.extra['mask'], dtype=x.dtype)
-        return {'op': 'coupling', 'p': prec, 's': [ck, 'coupling', e.extra.get('act', 'default')],
+        ufam, ubits = '', []
+        ut = getattr(t, 'unconditional_transform', None)
+        if ut is not None:
+            ufam = fam
+            nid = int(sum(1 for m in e.extra['mask'] if m <= 0)) * S_
+            UP = torch.cat([getattr(ut, nm).detach().to(x.dtype).reshape(nid, getattr(ut, nm).shape[-1]) for nm in S.PARAM_NAMES[fam]], -1)
+            ubits = bits.tensor_bits(UP)
+        return {'op': 'coupling', 'p': prec, 's': [ck, 'coupling', e.extra.get('act', 'default'), ufam],
                 'i': [int(inverse), int(bool(e.spline.get('tails'))), e.spline.get('K', 0), B, S_, hf, hc],
-                'f': [bits.tensor_bits(x), bits.tensor_bits(params.to(x.dtype)), bits.tensor_bits(mask)], 'd': [fb(v) for v in d]}
+                'f': [bits.tensor_bits(x), bits.tensor_bits(params.to(x.dtype)), bits.tensor_bits(mask), ubits], 'd': [fb(v) for v in d]}
     if e.kind == 'ar':
         net = t.autoregressive_net
         params = rec.calls[pass_index][1]
